@@ -1309,6 +1309,7 @@ vbi_decode_caption(vbi_decoder *vbi, int line, uint8_t *buf)
 
 		if (vbi_unpar8 (buf[0]) >= 0) {
 			if (c1 == 0) {
+				cc->last[1][0] = 0;
 				goto finish;
 			} else if (c1 <= 0x0F) {
 				xds_separator(vbi, buf);
@@ -1384,6 +1385,11 @@ vbi_decode_caption(vbi_decoder *vbi, int line, uint8_t *buf)
 
 		ch = &cc->channel[(cc->curr_chan & 5) + field2 * 2];
 
+		/* 47 CFR 15.119 (i)(1): Only a control code transmitted
+		   "twice in succession" is a repetition, not one which
+		   follows other data or a null pair. */
+		cc->last[field2][0] = 0;
+
 		if (buf[0] == 0x80 && buf[1] == 0x80) {
 			if (ch->mode) {
 				if (ch->nul_ct == 2)
@@ -1393,8 +1399,6 @@ vbi_decode_caption(vbi_decoder *vbi, int line, uint8_t *buf)
 
 			break;
 		}
-
-		cc->last[field2][0] = 0;
 
 		ch->nul_ct = 0;
 
